@@ -18,6 +18,10 @@ func VerifC06x_f06() {
 		{name: "maybe-empty-object-is-nothing", alt: `{"a":{}}`, canon: `{}`},
 		{name: "maybe-ok-false-is-nothing", alt: `{"a":{"ok":false}}`, canon: `{}`},
 		{name: "maybe-ok-false-with-value", alt: `{"a":{"ok":false,"value":` + N + `}}`, reject: true},
+		{name: "maybe-value-then-ok-false", alt: `{"a":{"value":` + N + `,"ok":false}}`, reject: true},
+		{name: "maybe-string-value-then-ok-false", alt: `{"b":{"value":` + S + `,"ok":false}}`, reject: true},
+		{name: "maybe-vector-ok-false-with-value", alt: `{"c":{"value":[` + N + `],"ok":false}}`, reject: true},
+		{name: "maybe-value-then-ok-true", alt: `{"a":{"value":` + N + `,"ok":true}}`, canon: `{"a":{"ok":true,"value":` + N + `}}`},
 		{name: "maybe-string-without-ok", alt: `{"b":{"value":` + S + `}}`, canon: `{"b":{"ok":true,"value":` + S + `}}`},
 		{name: "maybe-number-as-string", alt: `{"a":{"ok":true,"value":"` + N + `"}}`, canon: `{"a":{"ok":true,"value":` + N + `}}`},
 		{name: "nested-maybe", alt: `{"d":{"value":{"value":` + N + `}}}`, canon: `{"d":{"ok":true,"value":{"ok":true,"value":` + N + `}}}`},
